@@ -399,3 +399,48 @@ def replay(ctx, obj, prefix):
               "res=" + e["post"]["res"], e["post"].get("why", ""))
     print("failed clauses:", failed)
     return not bad
+
+
+def repo_test_traces(ctx, prefix):
+    """Thorough tier: the repository's own test-suite runs under the passive
+    recorder; every Indentation a test creates yields a trace (cut at the
+    first step that changes the object behind the library's back) that is
+    validated like any other trace."""
+    import rectrace
+    outdir = ctx.scratch / "repo_records"
+    tail = rectrace.run_repo_tests(outdir)
+    recs = rectrace.load_records(outdir)
+    traces, stats = rectrace.build_traces(recs)
+    stats["pytest_summary"] = tail
+    if not traces:
+        raise MachineryError("no trace recorded from the repository tests: "
+                             + tail)
+    failed, _pairs, states = validate(ctx, traces, [], "repo")
+    ctx.tlc_states += states
+    ctx.tlc_transitions += stats["events"]
+    ctx.traces += len(traces)
+    other = {}
+    for ti, evs in sorted(failed.items()):
+        tr = traces[ti]
+        for ei, clauses in sorted(evs.items()):
+            for cl in clauses:
+                if not cl.startswith(prefix):
+                    other[cl] = other.get(cl, 0) + 1
+                    continue
+                ev = tr["events"][ei]
+                calls = [e["src"]["desc"] for e in tr["events"][:ei + 1]]
+                ctx.report(
+                    f"{cl}|repo-test|{ev['src']['test'][:80]}|{calls[-1][:80]}",
+                    f"{cl} fails in the recorded run of {ev['src']['test']} "
+                    f"on {tr['cid']}: calls {calls[-5:]} -> out={ev['out']} "
+                    f"{ev['exc']} nopt={ev['nopt']} res={ev['post']['res']} "
+                    f"{ev['post'].get('why', '')}",
+                    {"kind": "repo-test", "test": ev["src"]["test"],
+                     "calls": calls, "clause": cl})
+    stats["clause_failures_other_properties"] = other
+    ctx.coverage["repository_test_traces"] = stats
+    for tr in traces[:1]:
+        ctx.sample({"tag": tr["tag"], "cid": tr["cid"],
+                    "calls": [e["src"]["desc"][:100] for e in tr["events"]],
+                    "post_res": [e["post"]["res"] for e in tr["events"]]})
+    return traces, stats
